@@ -4,25 +4,67 @@
    (Model/SessionSpec.v).  Server behaviour ranges over ALL scripts (lists over
    the reply alphabet [sitem], including unexpected elements, malformed XML, close). *)
 From Coq Require Import List ZArith NArith Bool.
-From XV Require Import Lib.Sx Model.Session Model.SessionSpec Proofs.SessionP Proofs.SessionSpecP Proofs.SessionWaitP.
+From XV Require Import Lib.Sx Model.Session Model.SessionSpec Proofs.SessionP Proofs.SessionSpecP Proofs.SessionWaitP Proofs.SessionSmP Proofs.SessionEvP.
 Import ListNotations.
 
-(* success (and with it the SessionEstablished announcement, which Client.connect
-   makes exactly on the success path) <-> every mandatory step completed *)
+(* success <-> every mandatory step completed.  [connect] = transport.Connect + NewSession. *)
 Theorem C03_connect_ok_iff : forall cfg dial tls p script,
   res (connect cfg dial tls p script) = Ok <-> completes cfg dial tls p script.
 Proof. exact connect_ok. Qed.
 
-(* whatever else the server answers, the result is an error: contrapositive of the
-   above, stated for readability *)
+(* "- and the session-established state is announced - exactly when ...": [client_connect] is
+   Client.connect, i.e. [connect] plus what the EventHandler is told while it runs.  The
+   announcement is made iff the script completes, iff the call succeeds; it is made once,
+   and a failing attempt announces nothing at all (no Disconnected either). *)
+Theorem C03_established_iff : forall cfg dial tls p script,
+  In EvEstablished (evs (client_connect cfg dial tls p script)) <-> completes cfg dial tls p script.
+Proof. exact established_iff. Qed.
+
+Theorem C03_established_iff_success : forall cfg dial tls p script,
+  In EvEstablished (evs (client_connect cfg dial tls p script)) <->
+  cres (client_connect cfg dial tls p script) = Ok.
+Proof. exact established_result. Qed.
+
+Theorem C03_established_once : forall cfg dial tls p script,
+  (count_ev EvEstablished (evs (client_connect cfg dial tls p script)) <= 1)%nat /\
+  (cres (client_connect cfg dial tls p script) = Ok ->
+   evs (client_connect cfg dial tls p script) = [EvEstablished]) /\
+  (cres (client_connect cfg dial tls p script) <> Ok -> evs (client_connect cfg dial tls p script) = []).
+Proof. exact established_once. Qed.
+
+(* the same over histories of connections on one Client (failed attempts in between
+   included): the application sees exactly the connections of [run_conns], each with one
+   announcement when it succeeded and none when it failed *)
+Theorem C03_history_established : forall cfg cs p,
+  map fst (run_clients cfg p cs) = run_conns cfg p cs /\
+  Forall (fun x => evs x = announce (cres x)) (run_clients cfg p cs).
+Proof. intros cfg cs p. exact (run_clients_spec cfg cs p). Qed.
+
+(* whatever else the server answers, the result is an error and nothing is announced *)
 Theorem C03_otherwise_error : forall cfg dial tls p script,
   ~ completes cfg dial tls p script ->
-  exists ce perm, res (connect cfg dial tls p script) = Err ce perm.
+  (exists ce perm, res (connect cfg dial tls p script) = Err ce perm) /\
+  evs (client_connect cfg dial tls p script) = [].
 Proof.
-  intros cfg dial tls p script H. destruct (res (connect cfg dial tls p script)) eqn:E.
+  intros cfg dial tls p script H. rewrite client_connect_evs.
+  destruct (res (connect cfg dial tls p script)) eqn:E.
   - exfalso. apply H. apply connect_ok. exact E.
-  - eauto.
+  - split; [eauto|reflexivity].
 Qed.
+
+(* "TLS when required": [completes] makes STARTTLS part of every complete negotiation as soon
+   as the server OFFERS it, whether it marks it required or not and whether the client allows
+   clear text (Insecure) or not; it is absent only when the server does not offer it, which
+   completes only with Insecure.  This is the reading of "required" the code implements
+   (RFC 6120 5.3.1: a client SHOULD use STARTTLS when offered; 5.4.2.2 / 5.4.3.2: after a
+   <failure/> or a failed handshake the stream and the connection MUST be ended, so there is
+   no falling back to clear text on the same connection).  Stated on its own so that the
+   decision is visible: *)
+Theorem C03_offered_tls_is_mandatory : forall cfg dial tls p id f s2,
+  f_tls f <> TlsNone ->
+  res (connect cfg dial tls p (SHeader id :: SFeatures f :: s2)) = Ok ->
+  tls = true /\ exists r, s2 = SProceed :: r.
+Proof. exact offered_tls_mandatory. Qed.
 
 (* the client's requests always form a prefix-closed word of the RFC 6120 order:
    open [starttls open] [auth [open [resume] [bind [session] [enable]]]] *)
@@ -49,16 +91,31 @@ Theorem C03_seen_is_read : forall cfg dial tls p script,
   exists rest, script = consumed (outs (connect cfg dial tls p script)) ++ rest.
 Proof. exact connect_consumed. Qed.
 
-(* [connect] is a total function defined by structural case analysis on a finite
-   script prefix: it returns for every script (never stuck), reading at most the
-   items it pattern-matches. Non-vacuity: a full negotiation with TLS, resumption
-   refused, bind, mandatory session and stream management. *)
+(* ... and every request is one the client has business sending, on failing negotiations as
+   well as on successful ones ([justified], Model/SessionSpec.v): <starttls/> only when
+   offered, <auth/> only with a mechanism of the credential that is implemented and listed by
+   a features element of this server, <resume/> only with the id and count held on a stream
+   offering stream management, the configured resource in the bind request, the legacy
+   session only when mandatory, <enable/> only when the application asked for stream
+   management and the server offers it, with the resume flag it wished for unless an earlier
+   <enabled/> on this Client did not grant resumption ([resume_wish]) *)
+Theorem C03_requests_justified : forall cfg dial tls p script,
+  Forall (justified cfg p script) (reqs (outs (connect cfg dial tls p script))).
+Proof. exact connect_just. Qed.
+
+(* "never hangs, never panics" are NOT theorems here.  [connect] is a total function that
+   pattern-matches a finite prefix of the script (C03_seen_is_read), which only says that the
+   model never waits for anything but the next server item; blocking inside the real
+   transport (Close waits for ConnectTimeout), a silent server (no read deadline in the
+   code) and Go panics are observed by the harness (hang verdict, crash journal), not proved.
+   Non-vacuity: a full negotiation with TLS, resumption refused, bind, mandatory session and
+   stream management. *)
 Example C03_example :
   let f0 := {| f_tls := TlsRequired; f_mechs := []; f_bind := false; f_sess := SessAbsent; f_sm := false |} in
   let f1 := {| f_tls := TlsNone; f_mechs := [mech_plain]; f_bind := false; f_sess := SessAbsent; f_sm := false |} in
   let f2 := {| f_tls := TlsNone; f_mechs := []; f_bind := true; f_sess := SessMandatory; f_sm := true |} in
   let cfg := {| c_insecure := false; c_resource := []; c_sm_resume := true; c_mechs := [mech_plain] |} in
-  let p := set_sm (fresh true) [7%N] true in
+  let p := set_sm (fresh true) [7%N] false in
   let script := [SHeader []; SFeatures f0; SProceed; SHeader []; SFeatures f1; SSuccess; SHeader [];
                  SFeatures f2; SFailed; SIq TResult (PlBind [1%N]) false; SIq TResult PlNone false;
                  SEnabled [9%N] ResTrue] in
@@ -67,10 +124,18 @@ Example C03_example :
    = [ROpen; RStartTls; ROpen; RAuth mech_plain; ROpen; RResume [7%N] 0; RBind [] 1; RSession 2; REnable true] /\
   map o_seen (outs (connect cfg true true p script))
    = [[]; [SHeader []; SFeatures f0]; [SProceed]; [SHeader []; SFeatures f1]; [SSuccess]; [SHeader []; SFeatures f2];
-      [SFailed]; [SIq TResult (PlBind [1%N]) false]; [SIq TResult PlNone false]].
+      [SFailed]; [SIq TResult (PlBind [1%N]) false]; [SIq TResult PlNone false]] /\
+  evs (client_connect cfg true true p script) = [EvEstablished] /\
+  evs (client_connect cfg true false p script) = [].
 Proof. repeat split; reflexivity. Qed.
 
 Print Assumptions C03_connect_ok_iff.
+Print Assumptions C03_established_iff.
+Print Assumptions C03_established_iff_success.
+Print Assumptions C03_established_once.
+Print Assumptions C03_history_established.
+Print Assumptions C03_offered_tls_is_mandatory.
+Print Assumptions C03_requests_justified.
 Print Assumptions C03_otherwise_error.
 Print Assumptions C03_requests_ordered.
 Print Assumptions C03_waits_for_confirmation.
